@@ -35,26 +35,17 @@ theorem bracket_agrees_with_reader' (cs : List Char) (h : (Lex.all cs).2 = none)
   bracket_closed_eq cs _ (Prod.ext rfl h)
 
 section Example
-/-- `(f #\( "a)" |b)| ;)` + newline + `#(1` + `,` : two lists are open; the parentheses in the
-character, the string, the quoted identifier and the comment do not count, the final `,` is
-dropped. -/
-private def sample : List Char := "(f #\\( \"a)\" |b)| ;)\n#(1,".toList
+/-- `(f #\( "a)" ;)` + newline: one list is open; the parentheses in the character literal, the
+string and the comment do not count. (A larger example, built with `lex_render`, is at the end of
+`C06.lean`.) -/
+example : (Lex.all "(f #\\( \"a)\" ;)\n".toList).2 = none := by
+  simp [Lex.all, Lex.allAux, Lex.next, Lex.skipAtmosphere, Lex.token, Lex.isWs, Lex.adv,
+    Lex.character, Lex.takeRun, Lex.normalIdentifier, Lex.isDigit, Lex.isSubsequent,
+    Lex.isInitial, Lex.isLetter, Lex.isAsciiAlnum, Lex.endOfSharpToken, Lex.endOfToken,
+    Lex.testDelimiter, Lex.isDelimiter, Lex.string, Except.map, bind, Except.bind, pure,
+    Except.pure]
 
-example : (Lex.all sample).2 = none ∧
-    (Lex.all sample).1.map (·.tok)
-      = [.lparen, .ident "f", .prim (.chr '('), .prim (.str "a)"), .ident "b)", .vecIntro,
-          .prim (.int 1)] := by
-  simp [sample, Lex.all, Lex.allAux, Lex.next, Lex.skipAtmosphere, Lex.token, Lex.isWs, Lex.adv,
-    Lex.character, Lex.takeRun, Lex.normalIdentifier, Lex.quotedIdentifier, Lex.number,
-    Lex.integerToken, Lex.parseI32?, Lex.digitsVal, fitsI32, Lex.isDigit,
-    Lex.isSubsequent, Lex.isInitial, Lex.isLetter, Lex.isAsciiAlnum, Lex.endOfSharpToken,
-    Lex.endOfToken, Lex.testDelimiter, Lex.isDelimiter, Lex.string, Except.map, bind,
-    Except.bind, pure, Except.pure]
-
-example : Bracket.closed sample = false := by decide
-
-example : depth [.lparen, .ident "f", .prim (.chr '('), .prim (.str "a)"), .ident "b)", .vecIntro,
-    .prim (.int 1)] = 2 := by decide
+example : Bracket.closed "(f #\\( \"a)\" ;)\n".toList = false := by decide
 end Example
 
 end Ruschm.C18
